@@ -7,7 +7,9 @@ import (
 	"context"
 	"encoding/json"
 	"os"
+	"path/filepath"
 	"testing"
+	"time"
 
 	"github.com/open-policy-agent/opa/v1/ast"
 )
@@ -57,6 +59,90 @@ func TestVerifC20(t *testing.T) {
 		c.Got = name(ls.regoVersionForURI(c.URI))
 	}
 	out, _ := json.Marshal(cases)
+	if err := os.WriteFile(outPath, out, 0o644); err != nil {
+		t.Fatal(err)
+	}
+}
+
+// TestVerifC20Reload drives the real config worker through histories of configuration files and records,
+// after every (re)load, what regoVersionForURI answers for a fixed set of files.
+func TestVerifC20Reload(t *testing.T) {
+	inPath, outPath := os.Getenv("VERIF_C20_RELOAD_IN"), os.Getenv("VERIF_C20_RELOAD_OUT")
+	if inPath == "" {
+		t.Skip("no input")
+	}
+	type step struct {
+		Yaml string            `json:"yaml"`
+		Got  map[string]string `json:"got"`
+	}
+	type hist struct {
+		Files []string `json:"files"`
+		Steps []step   `json:"steps"`
+	}
+	var hs []hist
+	bs, err := os.ReadFile(inPath)
+	if err != nil {
+		t.Fatal(err)
+	}
+	if err := json.Unmarshal(bs, &hs); err != nil {
+		t.Fatal(err)
+	}
+	name := func(v ast.RegoVersion) string {
+		switch v {
+		case ast.RegoV0:
+			return "v0"
+		case ast.RegoV1:
+			return "v1"
+		case ast.RegoUndefined:
+			return "undef"
+		}
+		return "other"
+	}
+	for hi := range hs {
+		h := &hs[hi]
+		root := t.TempDir()
+		if err := os.MkdirAll(filepath.Join(root, ".regal"), 0o755); err != nil {
+			t.Fatal(err)
+		}
+		cfgPath := filepath.Join(root, ".regal", "config.yaml")
+		ctx, cancel := context.WithCancel(context.Background())
+		ls := NewLanguageServer(ctx, &LanguageServerOptions{})
+		ls.workspaceRootURI = "file://" + root
+		go ls.StartConfigWorker(ctx)
+		waitCycle := func() bool {
+			// one reload cycle sets the directory->version map and, later in the same cycle, stores the built-ins of
+			// the capabilities in use: remove that entry, trigger the reload, and wait for it to come back
+			const capsURL = "regal:///capabilities/default"
+			ls.loadedBuiltins.Delete(capsURL)
+			ls.configWatcher.Reload <- cfgPath
+			deadline := time.Now().Add(90 * time.Second)
+			for {
+				if _, ok := ls.loadedBuiltins.Get(capsURL); ok {
+					return true
+				}
+				if time.Now().After(deadline) {
+					return false
+				}
+				time.Sleep(5 * time.Millisecond)
+			}
+		}
+		for si := range h.Steps {
+			st := &h.Steps[si]
+			if err := os.WriteFile(cfgPath, []byte(st.Yaml), 0o644); err != nil {
+				t.Fatal(err)
+			}
+			st.Got = map[string]string{}
+			if !waitCycle() {
+				st.Got["<timeout>"] = "timeout"
+				continue
+			}
+			for _, f := range h.Files {
+				st.Got[f] = name(ls.regoVersionForURI("file://" + root + f))
+			}
+		}
+		cancel()
+	}
+	out, _ := json.Marshal(hs)
 	if err := os.WriteFile(outPath, out, 0o644); err != nil {
 		t.Fatal(err)
 	}
